@@ -112,8 +112,12 @@ class Builder:
             old, new = self.objs[h['o']], self.objs[h['o2']]
             rel = old.relations[h['ri'] - 1]
             old.relations.remove(rel)
-            rel.parent = new
-            new.add_relation(rel)
+            if h.get('late'):
+                new.add_relation(rel)
+                rel.parent = new
+            else:
+                rel.parent = new
+                new.add_relation(rel)
         elif a == 'EditImport':
             sub = Feature('Imported sub-model root')
             self.model.import_model(sub, self.model.root, [Constraint(nm.conc_ctc(c['name']), AST(build_node(c['ast'], nm))) for c in h['ctcs']])
